@@ -303,6 +303,28 @@ def r5(ctx: Ctx) -> None:
         ck = kwarg(c.ast, "checksum")
         ctx.ob("C14.R5", ad, "append_data copies the checksum", c, ck is not None and norm_text(ck).endswith(".checksum"),
                "the re-pathed DataFile keeps the checksum of the written file")
+    # census: every DataFile(...) constructed inside the package carries a checksum
+    for f2 in ctx.prog.functions.values():
+        if f2.module.short not in ("transaction", "file_manager", "data_operations"):
+            continue
+        for c in [n for n in ctx.cfg(f2).calls() if n.callee and n.callee.kind == "ctor" and n.callee.cls and n.callee.cls.name == "DataFile"]:
+            ck = kwarg(c.ast, "checksum")
+            star = any(k.arg is None for k in c.ast.keywords) if isinstance(c.ast, ast.Call) else False  # type: ignore[union-attr]
+            ctx.ob("C14.R5", f2, "DataFile(...) site passes a checksum", c, ck is not None or star,
+                   "a DataFile rebuilt without its checksum (e.g. a survivor of a manifest rewrite) is read WITHOUT verification "
+                   "from then on: byte damage yields altered rows instead of CorruptDataError", nontrivial=False)
+    # survivors of a delete-rewrite are passed on unchanged (no per-field copy that could drop the checksum)
+    cf = ctx.fn("transaction.Transaction._commit_file_ops")
+    for c in ctx.calls(cf, name="create_manifest_file"):
+        ex = kwarg(c.ast, "existing_files")
+        if ex is None:
+            continue
+        org = ctx.slicer(cf).origins(ex, c.id)
+        helpers = [x for x in org["calls"] if isinstance(x, ast.Call) and ctx.prog.resolve_call(x, cf).kind == "func"
+                   and not (dotted(x.func) or "").endswith(("read_manifest_file", "read_manifest_list_file"))]
+        ctx.ob("C14.R5", cf, "carried-over files are the DataFile objects read from the manifest", c, not helpers,
+               "existing_files derives from read_manifest_file(...) by filtering only"
+               + (f"; transformed by {[norm_text(h)[:50] for h in helpers]}" if helpers else ""))
     cm = ctx.fn("file_manager.FileManager.create_manifest_file")
     dicts = [n for n in ast.walk(cm.node) if isinstance(n, ast.Dict)]
     stored = any(isinstance(k, ast.Constant) and k.value == "checksum" and norm_text(v).endswith(".checksum")
